@@ -186,3 +186,6 @@ func vhLog(args ...any) {}
 // vhSetAllocLimit declares, for the engine, the largest make() length the
 // code under test may request from here on (0 = no limit).
 func vhSetAllocLimit(n int) {}
+
+// vhDebug: development aid (the engine prints a description of the value).
+func vhDebug(label string, v any) {}
